@@ -1,8 +1,302 @@
-//! Family "rcl" (stub: not implemented yet).
-use crate::Ctx;
-use serde_json::Value;
+//! Family "rcl": RearCodedListBuilder / RearCodedList driven by an operation
+//! script (property C09; rear-coded-list parts of C12 and C15).
+//!
+//! Strings travel as lists of byte values (TLC has no characters). Every
+//! event carries `phase` ("none" | "builder" | "built") and `len` (the
+//! builder's or the list's `len()`), iteration events carry the yielded
+//! strings plus the `len()` / `size_hint()` values sampled before every call
+//! of `next()` (the last one being the call that returned `None`).
+//!
+//! `reload` serializes the list with ε-serde, loads it back in the requested
+//! way and *replaces* the list under test by the loaded instance.
 
-pub fn run(_ep: &Value, _ctx: &mut Ctx) {
-    eprintln!("family rcl not implemented");
-    std::process::exit(2);
+use crate::util::*;
+use crate::{guard, Ctx};
+use epserde::deser::{Deserialize, Flags, MemCase};
+use epserde::ser::Serialize;
+use epserde::utils::AlignedCursor;
+use lender::{ExactSizeLender, IntoLender, IteratorExt, Lender};
+use mem_dbg::{MemSize, SizeFlags};
+use serde_json::{json, Value};
+use sux::dict::{RearCodedList, RearCodedListBuilder};
+use sux::traits::{IndexedDict, IndexedSeq, IntoIteratorFrom};
+
+type Owned = RearCodedList<Box<[u8]>, Box<[usize]>>;
+type OwnedVec = RearCodedList<Vec<u8>, Vec<usize>>;
+type Borrowed = RearCodedList<&'static [u8], &'static [usize]>;
+
+enum St {
+    None,
+    Builder(RearCodedListBuilder),
+    Owned(Owned),
+    /// full deserialization of a file written from a slice-backed instance
+    OwnedVec(OwnedVec),
+    /// zero-copy deserialization from a (leaked) aligned byte buffer
+    Eps(Borrowed),
+    /// memory-mapped / memory-loaded instance; the file is kept alive
+    Case(MemCase<Borrowed>, Option<tempfile::NamedTempFile>),
+}
+
+fn bytes_of(v: &Value) -> Vec<u8> {
+    v.as_array()
+        .unwrap_or_else(|| panic!("string field is not a list: {v}"))
+        .iter()
+        .map(|x| x.as_u64().unwrap() as u8)
+        .collect()
+}
+
+fn string_of(v: &Value) -> String {
+    String::from_utf8(bytes_of(v)).expect("script strings must be valid UTF-8")
+}
+
+fn enc(s: &[u8]) -> Value {
+    Value::Array(s.iter().map(|&b| json!(b)).collect())
+}
+
+/// Drives an exact-size iterator, recording what it yields and its hints.
+macro_rules! drive {
+    ($it:expr, $cap:expr, |$x:ident| $bytes:expr) => {{
+        let mut it = $it;
+        let cap: usize = $cap;
+        let mut res: Vec<Value> = Vec::new();
+        let mut hints: Vec<Value> = Vec::new();
+        let mut lo: Vec<Value> = Vec::new();
+        let mut hi: Vec<Value> = Vec::new();
+        loop {
+            hints.push(json!(it.len()));
+            let (a, b) = it.size_hint();
+            lo.push(json!(a));
+            hi.push(match b {
+                Some(x) => json!(x),
+                None => json!(-1),
+            });
+            if res.len() >= cap {
+                // a runaway iterator: stop recording (the trace shows too many items)
+                break;
+            }
+            match it.next() {
+                Some($x) => res.push(enc($bytes)),
+                None => break,
+            }
+        }
+        json!({"res": res, "hints": hints, "lo": lo, "hi": hi})
+    }};
+}
+
+/// Read-only operations, generic over the backends.
+fn query<D: AsRef<[u8]> + Clone, P: AsRef<[usize]> + Clone>(
+    rcl: &RearCodedList<D, P>,
+    name: &str,
+    op: &Value,
+) -> Result<Value, String>
+where
+    RearCodedList<D, P>: MemSize,
+{
+    // more items than this from one iteration means the iterator does not stop
+    let cap = rcl.len().saturating_add(4);
+    match name {
+        "len" => guard(|| rcl.len()).map(|r| json!({"res": r})),
+        "len_trait" => guard(|| IndexedSeq::len(rcl)).map(|r| json!({"res": r})),
+        "is_empty" => guard(|| rcl.is_empty()).map(|r| json!({"res": r})),
+        "get" => guard(|| rcl.get(get_usize(op, "i"))).map(|r| json!({"res": enc(r.as_bytes())})),
+        "get_unchecked" => {
+            // documented as unchecked: called only inside its precondition
+            let i = get_usize(op, "i");
+            if i >= rcl.len() {
+                return Err("na".into());
+            }
+            guard(|| unsafe { rcl.get_unchecked(i) }).map(|r| json!({"res": enc(r.as_bytes())}))
+        }
+        "get_in_place" => guard(|| {
+            // the buffer is handed over dirty: the call must clear it
+            let mut buf: Vec<u8> = bytes_of(op.get("dirty").unwrap_or(&json!([])));
+            rcl.get_in_place(get_usize(op, "i"), &mut buf);
+            buf
+        })
+        .map(|r| json!({"res": enc(&r)})),
+        "iter" => guard(|| drive!(rcl.iter(), cap, |s| s.as_bytes())),
+        "into_iter" => guard(|| drive!(rcl.into_iter(), cap, |s| s.as_bytes())),
+        "iter_from" => guard(|| drive!(rcl.iter_from(get_usize(op, "j")), cap, |s| s.as_bytes())),
+        "into_iter_from" => {
+            guard(|| drive!(rcl.into_iter_from(get_usize(op, "j")), cap, |s| s.as_bytes()))
+        }
+        "lend" => guard(|| drive!(rcl.lend(), cap, |s| s.as_bytes())),
+        "into_lender" => guard(|| drive!(rcl.into_lender(), cap, |s| s.as_bytes())),
+        // Clone: the copy is iterated (and dropped) here; the list under test stays
+        "clone" => guard(|| {
+            let c = rcl.clone();
+            let r = drive!((&c).into_lender(), cap, |s| s.as_bytes());
+            r
+        }),
+        "lend_from" => guard(|| drive!(rcl.lend_from(get_usize(op, "j")), cap, |s| s.as_bytes())),
+        "index_of" => {
+            let s = string_of(&op["s"]);
+            guard(|| rcl.index_of(s.as_str())).map(|r| json!({"res": opt(r)}))
+        }
+        "contains" => {
+            let s = string_of(&op["s"]);
+            guard(|| rcl.contains(s.as_str())).map(|r| json!({"res": r}))
+        }
+        "mem_size" => guard(|| rcl.mem_size(SizeFlags::default())).map(|r| json!({"res": r})),
+        _ => unreachable!(),
+    }
+}
+
+const OPS: &[&str] = &[
+    "new", "push", "extend", "blen", "print_stats", "build", "clone", "reload", "len", "len_trait", "is_empty", "get",
+    "get_unchecked", "get_in_place", "iter", "into_iter", "iter_from", "into_iter_from", "lend",
+    "into_lender", "lend_from", "index_of", "contains", "mem_size",
+];
+
+/// Serializes `rcl` and loads it back in the requested way. `T` is the type
+/// named at deserialization time: ε-serde records `Box<[u8]>` and `Vec<u8>`
+/// backends under different type hashes, and an instance whose backends are
+/// slices (one that was itself loaded without copying) is recorded as the
+/// `Vec` form, so the caller names the type that matches the instance.
+fn save<S: Serialize, T>(rcl: &S, mode: &str, own: fn(T) -> St) -> Result<St, String>
+where
+    T: Deserialize + for<'a> epserde::deser::DeserializeInner<DeserType<'a> = RearCodedList<&'a [u8], &'a [usize]>>,
+{
+    let r: anyhow::Result<St> = (|| {
+        Ok(match mode {
+            "full" => {
+                let mut c = <AlignedCursor>::new();
+                rcl.serialize(&mut c)?;
+                c.set_position(0);
+                own(T::deserialize_full(&mut c)?)
+            }
+            "eps" => {
+                let mut c = <AlignedCursor>::new();
+                rcl.serialize(&mut c)?;
+                // the loaded instance borrows the buffer: the buffer is leaked
+                let c: &'static mut AlignedCursor = Box::leak(Box::new(c));
+                let b: &'static [u8] = c.as_bytes();
+                St::Eps(T::deserialize_eps(b)?)
+            }
+            _ => {
+                let f = tempfile::NamedTempFile::new()?;
+                rcl.store(f.path())?;
+                match mode {
+                    "mmap" => St::Case(T::mmap(f.path(), Flags::empty())?, Some(f)),
+                    "load_mmap" => St::Case(T::load_mmap(f.path(), Flags::empty())?, None),
+                    "load_mem" => St::Case(T::load_mem(f.path())?, None),
+                    "load_full" => own(T::load_full(f.path())?),
+                    m => anyhow::bail!("unknown reload mode {m}"),
+                }
+            }
+        })
+    })();
+    r.map_err(|e| format!("reload error: {e}"))
+}
+
+impl St {
+    fn proj(&self) -> Value {
+        match self {
+            St::None => json!({"phase": "none", "len": 0}),
+            St::Builder(b) => json!({"phase": "builder", "len": b.len()}),
+            St::Owned(r) => json!({"phase": "built", "len": r.len()}),
+            St::OwnedVec(r) => json!({"phase": "built", "len": r.len()}),
+            St::Eps(r) => json!({"phase": "built", "len": r.len()}),
+            St::Case(r, _) => json!({"phase": "built", "len": r.len()}),
+        }
+    }
+}
+
+fn merge(mut a: Value, b: Value) -> Value {
+    if let (Value::Object(x), Value::Object(y)) = (&mut a, b) {
+        for (k, v) in y {
+            x.insert(k, v);
+        }
+    }
+    a
+}
+
+pub fn run(ep: &Value, ctx: &mut Ctx) {
+    let mut st = St::None;
+    let hdr = json!({"op": "BEGIN", "fam": "rcl", "src": ep.get("src").cloned().unwrap_or(json!("?"))});
+    ctx.begin(&hdr);
+    ctx.emit(&hdr, "ret", st.proj());
+    for op in ep["ops"].as_array().unwrap() {
+        ctx.begin(op);
+        let name = op["op"].as_str().unwrap();
+        if !OPS.contains(&name) {
+            eprintln!("rcl: unknown op {name}");
+            std::process::exit(2);
+        }
+        let r: Result<Value, String> = match name {
+            // ------------------------------------------------ builder
+            "new" => guard(|| RearCodedListBuilder::new(get_usize(op, "k"))).map(|b| {
+                st = St::Builder(b);
+                json!({})
+            }),
+            "push" => match &mut st {
+                St::Builder(b) => {
+                    let s = string_of(&op["s"]);
+                    guard(|| b.push(s.as_str())).map(|_| json!({}))
+                }
+                _ => Err("na".into()),
+            },
+            "extend" => match &mut st {
+                St::Builder(b) => {
+                    let strs: Vec<String> = op["strs"].as_array().unwrap().iter().map(string_of).collect();
+                    guard(|| b.extend(strs.iter().map(|s| s.as_str()).into_lender())).map(|_| json!({}))
+                }
+                _ => Err("na".into()),
+            },
+            "blen" => match &st {
+                St::Builder(b) => guard(|| b.len()).map(|r| json!({"res": r})),
+                _ => Err("na".into()),
+            },
+            // diagnostic output on stdout (captured by the runner, never read)
+            "print_stats" => match &st {
+                St::Builder(b) => guard(|| b.print_stats()).map(|_| json!({})),
+                _ => Err("na".into()),
+            },
+            "build" => match std::mem::replace(&mut st, St::None) {
+                St::Builder(b) => match guard(|| b.build()) {
+                    Ok(r) => {
+                        st = St::Owned(r);
+                        Ok(json!({}))
+                    }
+                    Err(m) => Err(m),
+                },
+                other => {
+                    st = other;
+                    Err("na".into())
+                }
+            },
+            // ------------------------------------------------ list
+            "reload" => {
+                let mode = op["mode"].as_str().unwrap();
+                let loaded = match &st {
+                    St::Owned(r) => guard(|| save::<_, Owned>(r, mode, St::Owned)),
+                    St::OwnedVec(r) => guard(|| save::<_, OwnedVec>(r, mode, St::OwnedVec)),
+                    St::Eps(r) => guard(|| save::<_, OwnedVec>(r, mode, St::OwnedVec)),
+                    St::Case(r, _) => guard(|| save::<_, OwnedVec>(&**r, mode, St::OwnedVec)),
+                    _ => Err("na".into()),
+                };
+                match loaded {
+                    Ok(Ok(s)) => {
+                        st = s;
+                        Ok(json!({}))
+                    }
+                    // an I/O or format error is reported as a result, not as a panic
+                    Ok(Err(e)) => Ok(json!({"err": e})),
+                    Err(m) => Err(m),
+                }
+            }
+            _ => match &st {
+                St::Owned(r) => query(r, name, op),
+                St::OwnedVec(r) => query(r, name, op),
+                St::Eps(r) => query(r, name, op),
+                St::Case(r, _) => query(&**r, name, op),
+                _ => Err("na".into()),
+            },
+        };
+        match r {
+            Ok(f) => ctx.emit(op, "ret", merge(f, st.proj())),
+            Err(m) if m == "na" => ctx.emit(op, "na", st.proj()),
+            Err(m) => ctx.emit(op, "panic", merge(json!({"msg": m.chars().take(120).collect::<String>()}), st.proj())),
+        }
+    }
 }
